@@ -235,4 +235,10 @@ def units(root):
     shared = [u for u in c07.units(root) if "fill" in u.name or "lemma" in u.name]
     return [Unit(u.name + " (shared with C07)", u.build, u.budget) for u in shared] + [
         Unit("MinimizerScipyOptimize.minimize argument re-packing", u_scipy_repack, budget=2.0), Unit("is_diagonal", u_is_diagonal),
-        Unit("MinimizerScipyOptimize.unlimit by name", u_scipy_names), Unit("NexusFitter initial step sizes", u_initial_steps), Unit("lemmas: inputs of the cost under relabelling / unit change (feeds lean/Label.lean)", u_label_lemmas)]
+        Unit("MinimizerScipyOptimize.unlimit by name", u_scipy_names), Unit("NexusFitter initial step sizes", u_initial_steps), Unit("lemmas: inputs of the cost under relabelling / unit change (feeds lean/Label.lean)", u_label_lemmas),
+        Unit("MultiFit._get_parameter_indices: a member's results are taken at the positions of ITS parameter names, in its own order (shared with C11)", _shared_param_indices)]
+
+
+def _shared_param_indices(root):
+    from . import c11
+    return c11.u_param_indices(root)
